@@ -40,6 +40,14 @@ def cases(ctx):
         pos, neg, kind = gen.scores(rng, min_pos=1, min_neg=1, maxn=40, big=bool(ctx.tier == "thorough" and rng.random() < 0.08))
         ep, en = gen.easy(rng)
         sc, ec = gen.cfg(rng)
+        if i % 14 == 5:
+            # one class has no scored sample at all (but possibly easy ones): the setters of the other class and of the pooled
+            # outcome rates (TOPR/TONR: their population is everything scored, plus the easy samples) still have a relevant class
+            if rng.random() < 0.5:
+                pos, ep = pos[:0], int(rng.choice([0, 1, 3, 40, ep]))
+            else:
+                neg, en = neg[:0], int(rng.choice([0, 1, 3, 40, en]))
+            kind = kind + "+oneclass"
         yield {"pos": pos, "neg": neg, "ep": ep, "en": en, "sc": sc, "ec": ec, "kind": kind,
                "u": rng.uniform(0, 1, 12), "form": str(rng.choice(["array", "array", "array", "scalar", "list", "2d", "f32"])),
                "via": str(rng.choice(derive.VIAS)), "_seed": int(rng.integers(1 << 31))}
@@ -82,8 +90,11 @@ def execute(ctx, case):
         return True
     nontrivial = False
     with monitors.oracle_scope_ctx():
-        tgs = {m: _targets(s, m, u) for m in METRICS}
+        # a setter whose own class has no scored sample is outside the quantifier ("non-empty relevant class"): the library raises there
+        tgs = {m: _targets(s, m, u) for m in METRICS if not ((m in ("tpr", "fnr") and len(s.pos) == 0) or (m in ("tnr", "fpr") and len(s.neg) == 0))}
     for m in METRICS:
+        if m not in tgs:
+            continue
         tg = tgs[m]
         N = monitors.population(s, m)
         nontrivial = nontrivial or N >= 2
@@ -110,6 +121,8 @@ def execute(ctx, case):
         getattr(s, "threshold_at_" + ALIAS[m])(tg)
         # the alias is the same setter however its target and method are spelled (positional / keyword under the alias's own name)
         ctx.sess.observe("R-alias")
+        ctx.sess.check("R-alias", np.array_equal(np.asarray(fn(tg)), np.asarray(fn(tg, method="linear")), equal_nan=True),
+                       "the setter with method left out differs from method='linear' (the documented default)", lambda: {"metric": m, "targets": tg}, sig=("default-method", m), key="thr-default-method")
         for method in ("lower", "higher", "linear"):
             prim = np.asarray(fn(tg, method=method))
             by_kw = np.asarray(getattr(s, "threshold_at_" + ALIAS[m])(**{ALIAS[m]: tg, "method": method}))
